@@ -71,18 +71,35 @@ fn par_eval(sc: &Arc<Scenario>, hists: &Arc<Vec<Vec<Op>>>, cfg: &Config, workers
 pub fn run(thorough: bool) {
     let mut rep = Report::new("C18", if thorough { "thorough" } else { "quick" }, "model_checking");
     let sc = pair_scenario("pair-arrays", if thorough { &[1, 2, 3, 6, 9] } else { &[2, 3, 6] }, if thorough { 5 } else { 4 },
-        &[Op::Resolve(0, 0, 0), Op::Resolve(1, 0, 1), Op::Unstage(0), Op::Reopen(1)]);
-    let sc2 = pair_conflict_scenario("pair-conflict", 2, 3, &[1, 8], if thorough { 4 } else { 3 }, &[Op::Resolve(1, 0, 1), Op::Reopen(1), Op::Reopen(0)]);
+        &[Op::Resolve(0, 0, 0), Op::Resolve(1, 0, 1), Op::Unstage(0), Op::Reopen(1), Op::StageRt(0)]);
+    let sc2 = pair_conflict_scenario("pair-conflict", 2, 3, &[1, 8], if thorough { 4 } else { 3 }, &[Op::Resolve(1, 0, 1), Op::Reopen(1), Op::Reopen(0), Op::StageRt(1)]);
     let mut total_cmp = 0u64;
     let mut cfg_stats = vec![];
     let mut outcomes: BTreeSet<String> = BTreeSet::new();
     let a = arr_docs();
-    let sc3 = single_scenario("single-first-commit", vec![a[0].clone(), a[3].clone(), a[4].clone(), a[8].clone()], if thorough { 5 } else { 4 }, &[Op::Reopen(0), Op::Unstage(0), Op::ObjPut(0, 1)]);
+    let sc3 = single_scenario("single-first-commit", vec![a[0].clone(), a[3].clone(), a[4].clone(), a[8].clone()], if thorough { 5 } else { 4 }, &[Op::Reopen(0), Op::Unstage(0), Op::ObjPut(0, 1), Op::StageRt(0)]);
     for sc in [sc, sc2, sc3] {
         // pass 1: every distinct state of the scenario (representative histories)
         let ex = Explorer { sc: sc.clone(), probes: vec![], limits: Limits { pool_size: 1, max_states: if thorough { 60_000 } else { 4_000 }, ..Default::default() } };
         let r = ex.run(true);
-        let hists = Arc::new(r.states.clone());
+        // the representative histories, plus every operation that usually leads back to an already seen state
+        // (stage round trip, unstage, reopen, reload, refresh, snapshot) appended to each of them: under another
+        // configuration such a "self-loop" may not be one, and the representatives alone would never show it
+        let mut hs: Vec<Vec<Op>> = r.states.clone();
+        {
+            let mut seen: std::collections::HashSet<Vec<Op>> = hs.iter().cloned().collect();
+            let loops: Vec<Op> = sc.alphabet.iter().filter(|o| matches!(o, Op::StageRt(_) | Op::Unstage(_) | Op::Reopen(_) | Op::Reload(_) | Op::Refresh(_) | Op::Snapshot(_))).cloned().collect();
+            for h in &r.states {
+                for o in &loops {
+                    let mut h2 = h.clone();
+                    h2.push(o.clone());
+                    if seen.insert(h2.clone()) {
+                        hs.push(h2);
+                    }
+                }
+            }
+        }
+        let hists = Arc::new(hs);
         let sca = Arc::new(sc.clone());
         let mut sj = stats_json(&r.stats);
         sj["scenario"] = sc.describe();
